@@ -41,6 +41,24 @@ theorem C04_isolated_tree (t : Tree) (hw : WF t) (σ : List Ev) (htr : Tr t σ) 
   subst this
   exact ⟨h2, fun r hr => by rw [hr] at h2; simpa using h2⟩
 
+/-- **the outcome is a function of the request's own input** for every tree without fail-fast
+    ensembles and without batched workers that may fail as a whole (`Det t`): in every behaviour of
+    the concrete tree, whatever else is in flight, request `(u, x)` is answered with THE value
+    `r` determined by `t` and `x` alone -/
+theorem C04_deterministic_tree (t : Tree) (hw : WF t) (hdet : Det t) (σ : List Ev) (htr : Tr t σ)
+    (hd : DistinctIn σ) (u : Nat) (x y : Val) (hx : Ev.inp (u, x) ∈ σ) (hy : Ev.out (u, y) ∈ σ) :
+    ∃ r, outs t x = [r] ∧ y = r := by
+  obtain ⟨r, hr⟩ := outs_det t hdet x
+  exact ⟨r, hr, (C04_isolated_tree t hw σ htr hd u x y hx hy).2 r hr⟩
+
+/-- **an innocent request does not fail**: if no allowed outcome of `x` is an exception (no
+    failure site on any path `x` can take through `t`), the request is never answered with an
+    exception — other requests' failures cannot reach it -/
+theorem C04_innocent_tree (t : Tree) (hw : WF t) (σ : List Ev) (htr : Tr t σ) (hd : DistinctIn σ)
+    (u : Nat) (x y : Val) (hx : Ev.inp (u, x) ∈ σ) (hy : Ev.out (u, y) ∈ σ)
+    (hin : ∀ r ∈ outs t x, r.isExc = false) : y.isExc = false :=
+  hin y (C04_isolated_tree t hw σ htr hd u x y hx hy).1
+
 /-- a request whose own path has no failure is never answered with an exception because of others:
     for a simple servlet, an exception outcome is the request's own input exception, its own
     `preprocess` / `call` failure, or the failure of the batched call it was part of -/
